@@ -537,15 +537,59 @@ def judge(case):
     return _judge_expr(case)
 
 
-_WRAPPER_NAMES = {"math", "round", "isinstance", "int", "float", "bool", "abs", "len", "ValueError", "OverflowError", "TypeError", "operator",
-                  "factorial", "pow", "bit_length", "max", "min", "sum", "list", "tuple", "type", "extend", "append", "__name__", "str", "bytes"}
+# what the code of a bounded wrapper (and of the module-level helpers it calls) may *reach*: judged by what each global / builtin name it mentions
+# resolves to, not by how the names are spelled - hoisting a tuple of types into a module constant or renaming a helper is not a finding
+_HARMLESS_BUILTINS = {"isinstance", "issubclass", "len", "abs", "round", "max", "min", "sum", "pow", "divmod", "all", "any", "sorted", "reversed", "enumerate", "zip",
+                      "range", "iter", "next", "callable", "type", "map", "filter", "repr", "id", "hash", "NotImplemented"}
+_HARMLESS_TYPES = (int, float, bool, complex, str, bytes, bytearray, list, tuple, dict, set, frozenset, range, type(None), object, slice, type)
+
+
+def _harmless(target, vetted, module, depth):
+    import inspect
+    import operator
+    import types
+    if target is None or isinstance(target, (bool, int, float, complex, str, bytes)):
+        return True
+    if isinstance(target, (tuple, frozenset)):
+        return all(_harmless(x, vetted, module, depth) for x in target)
+    if isinstance(target, type):
+        return target in _HARMLESS_TYPES or issubclass(target, BaseException)
+    if isinstance(target, types.ModuleType):
+        return target in (math, operator)
+    if any(target is v for v in vetted):
+        return True
+    if any(target is getattr(builtins, n, None) for n in _HARMLESS_BUILTINS):
+        return True
+    if inspect.isfunction(target) and target.__module__ == module and depth < 4:
+        return _reach_problem(target, vetted, module, depth + 1) is None
+    return False
+
+
+def _reach_problem(fn, vetted, module, depth=0):
+    """None, or the first name in fn's code (nested code objects included) that resolves to something a pure helper has no business with"""
+    todo = [fn.__code__]
+    while todo:
+        code = todo.pop()
+        todo.extend(c for c in code.co_consts if hasattr(c, "co_names"))
+        for n in code.co_names:
+            if n in fn.__globals__:
+                target = fn.__globals__[n]
+            elif hasattr(builtins, n):
+                target = getattr(builtins, n)
+            else:
+                continue            # an attribute or method name of a value
+            if not _harmless(target, vetted, module, depth):
+                return n
+    return None
+
+
 _WRAPPER_GRID = [(), (0,), (1,), (5,), (-3,), (2.567,), (2.5,), (True,), ("7",), (10,), (2.567, 1), (1234, -2), (2, 10), (2.0, 0.5), (7, 2), (-7, 2), ([1, 2],), (None,),
                  ([[1], [2, 3]], []), (((1,), (2,)), ()), ([[1], (2,)], []), ([[1]], ()), ([1.5, 2], 0.5), ([[1], [2]], [0]), (["a"], ""), ([], []), ([[1], 2], [])]
 
 
 def _bounded_wrapper_problem(name, obj, vetted):
-    """A table entry may be a *bounded wrapper* of a vetted function: a plain function of the engine's own module named _bounded_<f> that refers
-    to nothing but arithmetic helpers and limits, and on a grid of ordinary arguments returns exactly what <f> returns (or raises what <f> raises),
+    """A table entry may be a *bounded wrapper* of a vetted function: a plain function of the engine's own module named _bounded_<f> whose code reaches
+    nothing but constants, plain types, exceptions, math / operator, vetted functions and equally harmless helpers of the same module, and on a grid of ordinary arguments returns exactly what <f> returns (or raises what <f> raises),
     the only liberty being a ValueError refusal.  Returns None if `obj` qualifies, else the reason."""
     import inspect
     if not inspect.isfunction(obj) or obj.__module__ != "operon_ai.organelles.mitochondria" or not obj.__name__.startswith("_bounded_"):
@@ -554,9 +598,9 @@ def _bounded_wrapper_problem(name, obj, vetted):
     ref = getattr(math, base, None) or getattr(builtins, base, None)
     if ref is None or not any(ref is v for v in vetted):
         return "wraps %r, which is not a vetted function" % base
-    extra = {n for n in obj.__code__.co_names if not (n in _WRAPPER_NAMES or n.startswith("MAX_"))}
-    if extra:
-        return "refers to %s" % sorted(extra)
+    bad = _reach_problem(obj, vetted, obj.__module__)
+    if bad is not None:
+        return "reaches %r" % bad
     kw_grid = [((), {"n": 5}), ((), {"x": 5}), ((), {"number": 2.567}), ((), {"number": 2.567, "ndigits": 1}), ((2.567,), {"ndigits": 2}), ((), {"iterable": [1, 2]}),
                (([1, 2],), {"start": 1}), (([[1]],), {"start": []}), ((5,), {"n": 5}), ((), {"obj": [1]}), ((), {"x": "7"})]
     for args, kwargs in [(a_, {}) for a_ in _WRAPPER_GRID] + kw_grid:
@@ -601,6 +645,12 @@ def _judge_table():
         for k, f in getattr(Mitochondria, tbl_name).items():
             if k not in ALLOWED_BINOPS + ALLOWED_UNARY + ALLOWED_CMP:
                 out.fail("table:operator-outside-documented-set:%s" % k.__name__, "%s maps %s" % (tbl_name, k.__name__), None)
+            if not any(f is o for o in ok_ops):
+                # an operator may be implemented by a bounded stand-in of the engine's own module: same reach rule as for the function table
+                import inspect
+                bad = _reach_problem(f, vetted, f.__module__) if inspect.isfunction(f) and f.__module__ == Mitochondria.__module__ else "<not a function of the engine's module>"
+                if bad is not None:
+                    out.fail("table:unvetted-operator:%s" % k.__name__, "%s implements %s by %r, which reaches %s" % (tbl_name, k.__name__, f, bad), None)
     out.label("table-audit")
     return out
 
